@@ -45,8 +45,9 @@ def wire_target(t):
     return {"k": k, "v": [fr(x) for x in v]}
 
 
-def wire_goal(s):
-    d = {"size": len(s["vars"]), "weight": fr(s["weight"]), "order": s["order"],
+def wire_goal(s, inst=None):
+    order = 1 if (inst is not None and S.is_linearized(inst, s)) else s["order"]
+    d = {"size": len(s["vars"]), "weight": fr(s["weight"]), "order": order,
          "nominal": [fr(x) for x in s["nominal"]], "critical": bool(s.get("critical"))}
     if s["kind"] != "min":
         d["tmin"] = wire_target(s.get("tmin"))
@@ -58,8 +59,8 @@ def objective_line(inst, gis):
     goals = [inst["goals"][gi] for gi in gis]
     return {"op": "objective", "sbs": bool(inst["opts"].get("scale_by_problem_size", False)),
             "T": len(inst["times"]), "probs": [fr(p) for p in inst["probs"]],
-            "goals": [wire_goal(s) for s in goals if not s["path"]],
-            "pathGoals": [wire_goal(s) for s in goals if s["path"]]}
+            "goals": [wire_goal(s, inst) for s in goals if not s["path"]],
+            "pathGoals": [wire_goal(s, inst) for s in goals if s["path"]]}
 
 
 def multipliers(cap):
@@ -202,7 +203,7 @@ def doc_terms_to_keys(inst, gis):
 
 
 def brief(inst):
-    return {k: inst[k] for k in ("times", "theta", "probs", "pvals", "cvals", "mode", "solver", "opts", "goals")
+    return {k: inst[k] for k in ("times", "theta", "probs", "pvals", "cvals", "mode", "solver", "opts", "goals", "linearize")
             if k in inst} | ({"nominals": inst["nominals"]} if "nominals" in inst else {})
 
 
@@ -331,6 +332,8 @@ def judge(c, rec, outs):
                 c.hit("certificate/no-finite-bound")
         # ---- (c) independent formulation, independent solver
         try:
+            if inst.get("linearize"):
+                raise ValueError("the linearised-order formulation is compared with its exact counterpart in C17")
             F = O.build(inst, k, hist)
             st, opt, _ = O.solve(F)
         except ValueError:
@@ -338,7 +341,7 @@ def judge(c, rec, outs):
         ynorm = float(np.abs(cap["lam_g"]).sum()) if cap["lam_g"] is not None else 0.0
         tol = 1e-6 * scale + 1e-7 * min(ynorm, 1e4)
         relaxed = False
-        if st == "infeasible" or (st == "optimal" and abs(obj - opt) > tol):
+        if (st == "infeasible" or (st == "optimal" and abs(obj - opt) > tol)) and not inst.get("linearize"):
             # retained rows are built from the previous solver output, which satisfies its own rows and
             # bounds only to the solver's tolerance: retry with those rows relaxed by 1e-6 (relative)
             F2 = O.build(inst, k, hist, slack=1e-6)
@@ -369,7 +372,7 @@ def judge(c, rec, outs):
             c.hit("independent/" + st)
         if certified and st == "optimal":
             c.hit("priority solves/certified+independent")
-    if rec["out"] is False:
+    if rec["out"] is False and not inst.get("linearize"):
         # a failed priority: is the documented problem of that priority really infeasible?
         k = len(rec["caps"])
         if k < len(prios):
@@ -467,6 +470,7 @@ def run(c):
     n = c.n(60, 400)
     run_stream(c, n, solver="highs", orders=(1,))
     run_stream(c, c.n(15, 80), mode="default", solver="ipopt", orders=(1, 2, 2), allow_critical=False)
+    run_stream(c, c.n(12, 60), solver="highs", orders=(1, 2, 3), linearize=True)
     probe_F14(c)
     c.notes.append(
         "optimality is decided per instance (certificate + independent solve), not for all inputs at once: a solver "
